@@ -20,9 +20,9 @@ static tp_task_p g_task;
 static io_buf_t g_iob; static uint8_t *g_data; static size_t g_S;
 static size_t g_win_o, g_win_t, g_used0;
 static uint8_t *g_stream; static size_t g_stream_n, g_stream_cap;
-static volatile int g_stopped, g_done, g_paused, g_was_paused; static unsigned g_wait_done, g_pause_after;
+static volatile int g_stopped, g_done, g_paused, g_was_paused, g_feeder_paused, g_feeder_resume, g_restarted; static unsigned g_wait_done, g_pause_after;
 static unsigned g_on_timeout /*0 stop,1 continue*/, g_on_eof_ret, g_every_read_reset, g_stop_after /* bytes, 0 = never */;
-static unsigned g_event_flags, g_task_flags, g_sfio, g_use_tcp; static uint64_t g_timeout_ms;
+static unsigned g_event_flags, g_task_flags, g_sfio, g_use_tcp, g_has_restart; static uint64_t g_timeout_ms;
 static int g_sv[2];
 static uint8_t *g_payload; static size_t g_P;
 static uint64_t g_nviol;
@@ -122,16 +122,32 @@ static int write_cb(tp_task_p tptask, int error, io_buf_p buf, uint32_t eof, siz
 	return TP_TASK_CB_NONE;
 }
 
-/* ---- mode 3: packet receiver */
+/* ---- mode 3: packet receiver: every datagram must land at the start of the buffer window */
+static void pick_window3(void) {
+	uint64_t r = tm_rand(); size_t o, t, used;
+	o = (size_t)((r >> 8) % (g_S - 200 + 1));
+	t = 200 + (size_t)((r >> 32) % (g_S - o - 200 + 1));
+	switch (r & 3) { case 0: used = o; break; case 1: used = 0; break; case 2: used = (size_t)((r >> 20) % (o + 1)); break; default: used = o + (size_t)((r >> 20) % (g_S - o)); break; }
+	g_win_o = o; g_win_t = t; g_used0 = used;
+	g_iob.used = used; g_iob.offset = o; g_iob.transfer_size = t;
+	fill_canary();
+}
 static int pkt_cb(tp_task_p tptask, int error, struct sockaddr_storage *addr, io_buf_p buf, size_t tr, void *udata) {
+	size_t i;
 	(void)addr; (void)udata;
-	TM_LOG(EV_PKT, 0, (uint64_t)(int64_t)error, tr, (int64_t)buf->used);
+	TM_LOG(EV_PKT, 0, (uint64_t)(int64_t)error, tr, (int64_t)(((uint64_t)buf->offset << 32) | (uint64_t)(uint32_t)buf->transfer_size));
 	if (g_stopped) { viol(V_CB_AFTER_STOP, error); return TP_TASK_CB_NONE; }
 	if (error) { tp_task_stop(tptask); __atomic_store_n(&g_stopped, 1, __ATOMIC_RELEASE); return TP_TASK_CB_NONE; }
-	if (buf->used > buf->size) viol(V_EXCEEDS_BUFFER, (int64_t)buf->used);
-	stream_add(buf->data, buf->used);   /* packets accumulated in the buffer since last reset */
-	{ uint8_t sep = 0xff; (void)sep; }
-	IO_BUF_MARK_AS_EMPTY(buf); IO_BUF_MARK_TRANSFER_ALL_FREE(buf);
+	if (tr > g_win_t) viol(V_EXCEEDS_BUFFER, (int64_t)tr);
+	else {
+		if (buf->offset != g_win_o + tr || buf->transfer_size != g_win_t - tr ||
+		    buf->used != ((g_used0 + tr) > g_S ? g_S : (g_used0 + tr)))
+			viol(V_WINDOW_FIELDS, (int64_t)(((uint64_t)buf->used << 40) | ((uint64_t)buf->offset << 20) | buf->transfer_size));
+		for (i = 0; i < g_win_o; i++) if (g_data[i] != g_canary_pat) { viol(V_OUTSIDE_WINDOW, (int64_t)i); break; }
+		for (i = g_win_o + tr; i < g_S; i++) if (g_data[i] != g_canary_pat) { viol(V_OUTSIDE_WINDOW, (int64_t)i); break; }
+		stream_add(g_data + g_win_o, tr);
+	}
+	pick_window3();
 	return TP_TASK_CB_CONTINUE;
 }
 
@@ -150,7 +166,7 @@ static unsigned g_mode;
 static void start_cb(tpt_p tpt, void *udata) {
 	int rc = 0;
 	(void)udata;
-	g_owner = tpt;
+	/* g_owner was set by main before this message was sent (same value) */
 	if (g_mode == 1) {
 		rc = tp_task_create(tpt, (uintptr_t)g_sv[0], tp_task_sr_handler, g_task_flags, NULL, &g_task);
 		if (!rc) rc = tp_task_start_ex((int)g_sfio, g_task, TP_EV_READ, (uint16_t)g_event_flags, g_timeout_ms, 0, &g_iob, read_cb);
@@ -170,6 +186,20 @@ static void resume_cb(tpt_p tpt, void *udata) {
 	rc = tp_task_enable(g_task, 1);
 	TM_LOG(EV_NOTE, 6, 0, 0, rc);
 }
+/* stop the task in mid-stream (possibly with bytes read but not yet reported) and start it again with a new window */
+static void restart_cb(tpt_p tpt, void *udata) {
+	int rc = -1;
+	(void)tpt; (void)udata;
+	if (g_task && !g_stopped && !g_paused) {
+		size_t unreported = (g_iob.offset >= g_win_o && g_iob.offset - g_win_o <= g_win_t) ? (g_iob.offset - g_win_o) : 0;
+		stream_add(g_data + g_win_o, unreported); /* the user can see them in the buffer; the callback count must not include them later */
+		tp_task_stop(g_task);
+		set_window(0, g_S < 8 ? g_S : 8);
+		rc = tp_task_start_ex((int)g_sfio, g_task, TP_EV_READ, (uint16_t)g_event_flags, g_timeout_ms, 0, &g_iob, read_cb);
+		TM_LOG(EV_NOTE, 8, unreported, 0, rc);
+	}
+	__atomic_store_n(&g_restarted, 1, __ATOMIC_RELEASE);
+}
 static void destroy_cb(tpt_p tpt, void *udata) {
 	(void)tpt; (void)udata;
 	if (g_task) { tp_task_destroy(g_task); g_task = NULL; }
@@ -186,6 +216,11 @@ static void *feeder(void *arg) {
 	(void)arg; tm_tid = 1000;
 	for (i = 0; i < g_nfrags && off < g_P; i++) {
 		size_t n = g_frags[i].n, put = 0;
+		if (g_frags[i].gap_us == 0xffffffffu) { /* pause marker: main restarts the task, then resumes us */
+			__atomic_store_n(&g_feeder_paused, 1, __ATOMIC_RELEASE);
+			while (!__atomic_load_n(&g_feeder_resume, __ATOMIC_ACQUIRE)) { struct timespec ts = {0, 300000}; nanosleep(&ts, NULL); }
+			continue;
+		}
 		if (g_frags[i].gap_us) { struct timespec ts = { g_frags[i].gap_us / 1000000, (long)(g_frags[i].gap_us % 1000000) * 1000 }; nanosleep(&ts, NULL); }
 		if (off + n > g_P) n = g_P - off;
 		while (put < n) {
@@ -240,7 +275,7 @@ int main(void) {
 	g_drain_chunk = vin_u32(&in); g_drain_gap_us = vin_u32(&in); g_drain_stop_after = vin_u32(&in); sndbuf = vin_u32(&in); nclients = vin_u16(&in);
 	pp = vin_blob(&in, &pn); g_P = pn; g_payload = malloc(pn + 1); memcpy(g_payload, pp, pn);
 	g_nfrags = vin_u16(&in); g_frags = calloc(g_nfrags + 1, sizeof(frag_t));
-	for (i = 0; i < g_nfrags; i++) { g_frags[i].n = vin_u32(&in); g_frags[i].gap_us = vin_u32(&in); }
+	for (i = 0; i < g_nfrags; i++) { g_frags[i].n = vin_u32(&in); g_frags[i].gap_us = vin_u32(&in); if (g_frags[i].gap_us == 0xffffffffu) g_has_restart = 1; }
 	if (in.bad || g_S == 0) { fprintf(stderr, "bad case\n"); return 3; }
 	tm_scn_seed = seed; tm_tid = 999; g_canary_pat = (uint8_t)(0xA5 ^ (seed & 0x3f));
 
@@ -252,7 +287,7 @@ int main(void) {
 		for (i = 0; i < g_win_t; i++) g_data[g_win_o + i] = g_payload[i % (g_P ? g_P : 1)];
 		g_iob.used = g_win_o + g_win_t; g_iob.offset = g_win_o; g_iob.transfer_size = g_win_t;
 		g_P = g_win_t;
-	} else if (g_mode == 3) { IO_BUF_MARK_AS_EMPTY(&g_iob); IO_BUF_MARK_TRANSFER_ALL_FREE(&g_iob); }
+	} else if (g_mode == 3) { pick_window3(); }
 	else { if (g_win_o + g_win_t > g_S) g_win_t = g_S - g_win_o; set_window(g_win_o, g_win_t); }
 
 	if (g_mode == 4) {
@@ -292,6 +327,15 @@ int main(void) {
 	} else {
 		tpt_msg_send(g_owner, NULL, 0, start_cb, NULL);
 		if (g_mode == 2) pthread_create(&th, NULL, drainer, NULL); else pthread_create(&th, NULL, feeder, NULL);
+		if (g_mode == 1 && g_nfrags && g_has_restart) {
+			uint64_t t0 = tm_now();
+			while (!__atomic_load_n(&g_feeder_paused, __ATOMIC_ACQUIRE) && tm_now() - t0 < 20000000000ull) { struct timespec ts = {0, 300000}; nanosleep(&ts, NULL); }
+			{ struct timespec ts = {0, 30000000}; nanosleep(&ts, NULL); } /* let the pool thread consume what was sent so far */
+			tpt_msg_send(g_owner, NULL, 0, restart_cb, NULL);
+			t0 = tm_now();
+			while (!__atomic_load_n(&g_restarted, __ATOMIC_ACQUIRE) && tm_now() - t0 < 20000000000ull) { struct timespec ts = {0, 300000}; nanosleep(&ts, NULL); }
+			__atomic_store_n(&g_feeder_resume, 1, __ATOMIC_RELEASE);
+		}
 		pthread_join(th, NULL);
 		if (g_pause_after) { /* the feeder is done: everything is in the socket; once the task paused itself stay silent a little, then resume */
 			uint64_t t0 = tm_now();
